@@ -57,14 +57,14 @@ package domain
 //@   # the records below `start` are already on disk
 //@   closure_requires ip.p != nil && len(fs.SpecFile[ip.p.File]) % 26 == 0 && start*26 <= len(fs.SpecFile[ip.p.File])
 //@   # crash after Truncate, no loss: every byte that is in both the old and the new file is still there
-//@   assert_after "err := ip.p.Truncate(" err == nil ==> len(fs.SpecFile[ip.p.File]) == lenOfPointers*26 && (forall k int :: 0 <= k && k < lenOfPointers*26 && k < old(len(fs.SpecFile[ip.p.File])) ==> fs.SpecFile[ip.p.File][k] == old(fs.SpecFile[ip.p.File][k]))
+//@   assert_after "err := ip.p.Truncate(" err == nil ==> len(fs.SpecFile[ip.p.File]) == (start*26+len(pointerEncoded)) && (forall k int :: 0 <= k && k < (start*26+len(pointerEncoded)) && k < old(len(fs.SpecFile[ip.p.File])) ==> fs.SpecFile[ip.p.File][k] == old(fs.SpecFile[ip.p.File][k]))
 //@   assert_after "err := ip.p.Truncate(" err != nil ==> __eq(fs.SpecFile[ip.p.File], old(fs.SpecFile[ip.p.File]))
 //@   # crash after Truncate, nothing fabricated: a record beyond the old end of the file already
 //@   # holds its new pointer. FAILS when the index grows: the new tail is zero-filled until WriteAt
 //@   # runs (known finding, /verif/findings/c02_index_truncate_window_test.go)
 //@   assert_after "err := ip.p.Truncate(" err == nil ==> (forall k int :: old(len(fs.SpecFile[ip.p.File])) <= k && k < len(fs.SpecFile[ip.p.File]) ==> fs.SpecFile[ip.p.File][k] == pointerEncoded[k-start*26])
 //@   # after WriteAt (and at any later crash point): the file is exactly the prepared index
-//@   assert_after "_, err = ip.p.WriteAt(" err == nil ==> len(fs.SpecFile[ip.p.File]) == lenOfPointers*26 && (forall k int :: start*26 <= k && k < lenOfPointers*26 ==> fs.SpecFile[ip.p.File][k] == pointerEncoded[k-start*26]) && (forall k int :: 0 <= k && k < start*26 ==> fs.SpecFile[ip.p.File][k] == old(fs.SpecFile[ip.p.File][k]))
+//@   assert_after "_, err = ip.p.WriteAt(" err == nil ==> len(fs.SpecFile[ip.p.File]) == (start*26+len(pointerEncoded)) && (forall k int :: start*26 <= k && k < (start*26+len(pointerEncoded)) ==> fs.SpecFile[ip.p.File][k] == pointerEncoded[k-start*26]) && (forall k int :: 0 <= k && k < start*26 ==> fs.SpecFile[ip.p.File][k] == old(fs.SpecFile[ip.p.File][k]))
 
 //@ # a is b with p inserted at position k (every other pointer kept, in order)
 //@ spec func insertedAt(a []pointer, b []pointer, k int, p pointer) bool =
